@@ -198,3 +198,66 @@ func H_two_locals() {
 	}
 	symx.Reach("end")
 }
+
+// closure middleware around a plain handler: locals of the middleware, its $request/$response and
+// everything it does AFTER $next() must belong to the request being served
+const mwSrc = `
+class Box { public $v = ""; }
+function mw($request, $response, $next) {
+  $q = $request->query(); $tag = "T" . $q->x;
+  $response->write("pre:" . $q->x . ";");
+  $next($request, $response);
+  $response->write("post:" . $tag . ";");
+}
+function handler($r, $w) {
+  $q = $r->query(); $a = $q->x;
+  $w->write("h:" . $a . ";");
+}
+`
+
+// H_two_middleware: two requests in flight through newMiddleware(mw)(Handler).
+func H_two_middleware() {
+	p := parser.NewParser()
+	vm := runtime.NewVM(p)
+	vm.SetThrowControl(func(acl data.Control) {})
+	prog, ctl := p.ParseString(mwSrc, "h.zy")
+	symx.Assert(ctl == nil, "script parses")
+	if ctl != nil {
+		return
+	}
+	ctx := vm.CreateContext(p.GetVariables())
+	prog.GetValue(ctx)
+	hf, ok1 := vm.GetFunc("handler")
+	mf, ok2 := vm.GetFunc("mw")
+	symx.Assert(ok1 && ok2, "handler and middleware defined")
+	if !ok1 || !ok2 {
+		return
+	}
+	wrap, err := ohttp.VerifNewMiddleware(mf, ctx)
+	symx.Assert(err == nil, "middleware accepted")
+	if err != nil {
+		return
+	}
+	chain := wrap(ohttp.Handler{Value: hf, Ctx: ctx})
+	for _, c := range node.VerifSuperglobalCells() {
+		symx.Shared(c, "superglobal cache")
+	}
+	symx.KnownPanic("C11-shared-superglobal-cache", "on superglobal cache@", true)
+	qs := [2]string{"1", "2"}
+	recs := [2]*recorder{{hdr: http.Header{}}, {hdr: http.Header{}}}
+	var wg sync.WaitGroup
+	wg.Add(2)
+	for t := 0; t < 2; t++ {
+		t := t
+		go func() {
+			chain.ServeHTTP(recs[t], request(qs[t]))
+			wg.Done()
+		}()
+	}
+	wg.Wait()
+	for t := 0; t < 2; t++ {
+		want := "pre:" + qs[t] + ";h:" + qs[t] + ";post:T" + qs[t] + ";"
+		symx.Assert(string(recs[t].body) == want, "response body equals what middleware + handler yield for this request alone")
+	}
+	symx.Reach("end")
+}
